@@ -18,6 +18,7 @@ use crate::internal::stream_buffer::StreamBuffer;
 pub struct Stream<F> {
     minialloc: Weak<RwLock<MiniAllocator<F>>>,
     stream_id: u32,
+    generation: u32,
     total_len: u64,
     buffer: StreamBuffer,
     buf_offset_from_start: u64,
@@ -30,11 +31,17 @@ impl<F> Stream<F> {
         stream_id: u32,
         max_buffer_size: usize,
     ) -> Stream<F> {
-        let total_len =
-            minialloc.read().unwrap().dir_entry(stream_id).stream_len;
+        let (total_len, generation) = {
+            let minialloc = minialloc.read().unwrap();
+            (
+                minialloc.dir_entry(stream_id).stream_len,
+                minialloc.dir_entry_generation(stream_id),
+            )
+        };
         Stream {
             minialloc: Arc::downgrade(minialloc),
             stream_id,
+            generation,
             total_len,
             buffer: StreamBuffer::new(max_buffer_size),
             buf_offset_from_start: 0,
@@ -43,9 +50,18 @@ impl<F> Stream<F> {
     }
 
     fn minialloc(&self) -> io::Result<Arc<RwLock<MiniAllocator<F>>>> {
-        self.minialloc
+        let minialloc = self
+            .minialloc
             .upgrade()
-            .ok_or_else(|| io::Error::other("CompoundFile was dropped"))
+            .ok_or_else(|| io::Error::other("CompoundFile was dropped"))?;
+        // If the stream has been removed, its directory entry may by now
+        // describe another object.
+        let generation =
+            minialloc.read().unwrap().dir_entry_generation(self.stream_id);
+        if generation != self.generation {
+            not_found!("Stream has been removed");
+        }
+        Ok(minialloc)
     }
 
     /// Returns the current length of the stream, in bytes.
